@@ -30,8 +30,8 @@ type c11Case struct {
 	Parsed bool   `json:"parsed"`
 	Valid  bool   `json:"valid"`
 	Pan    bool   `json:"pan,omitempty"`
-	V      *XVal  `json:"v,omitempty"`   // admit: decoded value; valid: the input value
-	S      *HStr  `json:"s,omitempty"`   // naddr
+	V      *XVal  `json:"v,omitempty"` // admit: decoded value; valid: the input value
+	S      *HStr  `json:"s,omitempty"` // naddr
 	Kind   *int64 `json:"kind,omitempty"`
 }
 
